@@ -47,13 +47,13 @@ class TiledStride:
         # the previous step and the current bound
         steps = [simple_stride]
         for bound in reversed(tile_bounds[1:]):
-            steps = [bound * steps[0] if bound and steps[0] else None, *steps]
+            steps = [bound * steps[0] if bound is not None and steps[0] is not None else None, *steps]
 
         return TiledStride([Stride(step, bound) for step, bound in zip(steps, tile_bounds)])
 
     def __str__(self) -> str:
-        strides = ", ".join(str(stride.step) if stride.step else "?" for stride in self.strides)
-        bounds = ", ".join(str(stride.bound) if stride.bound else "?" for stride in self.strides)
+        strides = ", ".join(str(stride.step) if stride.step is not None else "?" for stride in self.strides)
+        bounds = ", ".join(str(stride.bound) if stride.bound is not None else "?" for stride in self.strides)
         return f"[{bounds}] -> ({strides})"
 
     def __iter__(self) -> Iterator[tuple[int, Stride]]:
